@@ -360,7 +360,7 @@ async fn name_case(pki: &Pki, srv: &Server, echo_port: u16, c: &[u64]) -> Vec<u6
     use std::str::FromStr;
     let name = |k: u64| match k { 1 => Some("localhost"), 2 => Some("other.example"), _ => None };
     let url_host = if c[0] == 0 { "127.0.0.1" } else { "localhost" };
-    let lport = TcpListener::bind("127.0.0.1:0").await.unwrap().local_addr().unwrap().port();
+    let lport = alloc_port();
     let args: &'static ClientArgs = Box::leak(Box::new(ClientArgs {
         server: ServerUrl::from_str(&format!("wss://{url_host}:{}/ws", srv.port)).unwrap(),
         remote: vec![Remote::from_str(&format!("127.0.0.1:{lport}:127.0.0.1:{echo_port}")).unwrap()],
@@ -431,7 +431,7 @@ async fn signal_case(pki: &Pki, tag: &str, c: &[u64]) -> Vec<u64> {
     let (certp, keyp, cap) = (p(d, &format!("sig-{tag}.pem")), p(d, &format!("sig-{tag}.key")), p(d, "clientca.pem"));
     std::fs::copy(d.join(format!("srv{cert}.pem")), &certp).unwrap();
     std::fs::copy(d.join(format!("srv{cert}.key")), &keyp).unwrap();
-    let port = TcpListener::bind("127.0.0.1:0").await.unwrap().local_addr().unwrap().port();
+    let port = alloc_port();
     let args: &'static ServerArgs = Box::leak(Box::new(ServerArgs {
         host: vec!["127.0.0.1".to_string()],
         port: vec![port],
